@@ -309,7 +309,7 @@ pub fn run_hist(src: &mut Src, rep: &mut Report, profile: Profile) -> Verdict {
     let base = make_chooser(src, nthreads, total * 8 + 4, rep);
     let mut iso: Option<Isolation> = None;
     let mut plain: Option<Box<dyn Chooser>> = None;
-    if prog.isolation {
+    if prog.isolation && !crate::schedsrc::enumerating() {
         let colls: Vec<(usize, usize)> = prog
             .threads
             .iter()
@@ -612,6 +612,9 @@ impl Property for C02 {
             Tier::Thorough => Budget { cases: 1_000_000, min_len: 8, max_len: 360 },
         }
     }
+    fn post(&self, tier: Tier, seed: u64, stats: &mut crate::engine::Stats) -> Result<(), (String, String, Vec<u8>)> {
+        crate::exhaust::bounded_enumeration(self, tier, seed, stats)
+    }
     fn run(&self, src: &mut Src, rep: &mut Report) -> Verdict {
         run_hist(src, rep, Profile::Cut)
     }
@@ -643,6 +646,9 @@ impl Property for C03 {
             Tier::Quick => Budget { cases: 16_000, min_len: 8, max_len: 400 },
             Tier::Thorough => Budget { cases: 800_000, min_len: 8, max_len: 460 },
         }
+    }
+    fn post(&self, tier: Tier, seed: u64, stats: &mut crate::engine::Stats) -> Result<(), (String, String, Vec<u8>)> {
+        crate::exhaust::bounded_enumeration(self, tier, seed, stats)
     }
     fn run(&self, src: &mut Src, rep: &mut Report) -> Verdict {
         run_hist(src, rep, Profile::Conserve)
